@@ -248,7 +248,7 @@ def family_literals(tier):
     b.add('x: cython.uchar', "return LC(0, x) in b'abc', LC(1, x) not in b'abc', LC(2, x) in b'a\\xff\\x00', LC(3, x) in b'', LC(4, x) in b'aa'",
           'lit/uchar/bytes', Prod(typed[2][4]), 'x_uchar')
     b.add('x: cython.int', "return LI(0, x) in b'abc', LI(1, x) not in b'abc', LI(2, x) in 'abc'" if False else
-          "return LI(0, x) in b'abc', LI(1, x) not in b'a\\xff'", 'lit/int/bytes', Prod(['96', '97', '99', '100', '255', '256', '-1']), 'x_intb')
+          "return LI(0, x) in b'abc', LI(1, x) not in b'a\\xff'", 'lit/int/bytes', Prod(['96', '97', '99', '100', '255', '0', '128']), 'x_intb')
     return b
 
 
